@@ -64,14 +64,19 @@ def _gen_jobs(q):
             ("g1four", {"Coords": "{0, 2, 4}", "Dims": 1, "MaxBoxes": 4, "WithInf": "FALSE", "WithNull": "FALSE",
                         "WithSemi": "FALSE"}, 2, False),
             ("g2", {"Coords": "{0, 2}", "Dims": 2, "MaxBoxes": 3, "WithInf": "FALSE", "WithNull": "FALSE",
-                    "WithSemi": "FALSE"}, 2, True),
+                    "WithSemi": "FALSE"}, 2, False),
+            # units only: boxes with an interior
+            ("gunit2", {"Coords": "{0, 2, 4}", "Dims": 2, "MaxBoxes": 3, "WithThin": "FALSE", "WithInf": "TRUE",
+                        "WithNull": "FALSE", "WithSemi": "FALSE"}, 0, True),
         ]
     return [
         ("g1semi", semi, 1, True),
         ("g1four", {"Coords": "{0, 2, 4, 6}", "Dims": 1, "MaxBoxes": 4, "WithInf": "TRUE", "WithNull": "FALSE",
                     "WithSemi": "FALSE"}, 8, False),
         ("g2", {"Coords": "{0, 2}", "Dims": 2, "MaxBoxes": 4, "WithInf": "FALSE", "WithNull": "FALSE",
-                "WithSemi": "FALSE"}, 8, True),
+                "WithSemi": "FALSE"}, 8, False),
+        ("gunit2", {"Coords": "{0, 2, 4}", "Dims": 2, "MaxBoxes": 3, "WithThin": "FALSE", "WithInf": "TRUE",
+                    "WithNull": "FALSE", "WithSemi": "TRUE"}, 0, True),
         ("g2wide", {"Coords": "{0, 2, 4}", "Dims": 2, "MaxBoxes": 2, "WithInf": "TRUE", "WithNull": "FALSE",
                     "WithSemi": "TRUE"}, 4, True),
     ]
@@ -220,7 +225,7 @@ def run(ctx):
         if len(confs) != int(m.group(1)) or len(json.loads(header)["pts"]) != int(m.group(2)):
             raise vlib.Broken("generation %s: %d configurations written, TLC reports %s" % (name, len(confs), m.group(0)))
         nconfigs[name] = len(confs)
-        for si, part in enumerate(vlib.shards(confs, nshard)):
+        for si, part in enumerate(vlib.shards(confs, nshard) if nshard else []):
             sp = ctx.path("%s.%d.in.ndjson" % (name, si))
             with open(sp, "w") as fh:
                 fh.write(header + "\n" + "\n".join(part) + "\n")
